@@ -26,13 +26,12 @@ class C01(Check):
             'applied and every output coordinate was compared with the brute-force anchor-and-scale reference')
     technique = ('exhaustive enumeration of labelled bond graphs x geometry classes x targets x placements x '
                  'scale factors on the real ExchangeMap, compared with a brute-force reference map')
-    level_text = ('every labelled graph on 3..4 (quick) / 3..5 (thorough) atoms with an anchor, in 8 geometry classes '
-                  '(incl. exactly collinear along 6 directions and axis-aligned right angles), targets of 1-3 '
+    level_text = ('every labelled graph on 3..4 (quick) / 3..5 (thorough) atoms with an anchor, in 10 geometry classes '
+                  '(incl. exactly collinear along 6 directions, nearly collinear with sin ~ 1e-9 and 3e-10, and axis-aligned right angles), targets of 1-3 '
                   '(thorough also 6, and 40 on references up to 4 atoms) atoms in 3 tie-free placements, 5 scale factors in (0, 2], all executed on '
                   'the real code; a coverage statement over this finite product, not a proof for all reals')
     level_note = ('trusted: numpy arithmetic, the graph enumerator (self-tested against closed-form counts), the '
-                  'in-memory builders (real parsers), the brute-force reference ref_map; not covered: near-collinear '
-                  '(neither generic nor exact) geometries, ties between anchors, references above 5 atoms')
+                  'in-memory builders (real parsers), the brute-force reference ref_map; not covered: near-collinear geometries other than the two stated classes, ties between anchors, references above 5 atoms')
     assumptions = ['generic coordinates from a conditioned table selected by VERIF_SEED (sin >= 0.25, separation >= 0.08 nm)',
                    'degenerate classes use dyadic coordinates so collinearity is exact in floating point',
                    'target points have a unique nearest anchor with margin >= 1e-3 nm (enforced by the builder)',
@@ -49,12 +48,13 @@ class C01(Check):
             mod = {3: 1, 4: 6, 5: 32}[n]
             for geo in xm.GEO:
                 u += [{'n': n, 'geo': [geo], 'mod': mod, 'r': r} for r in range(mod)]
-        if os.environ.get('MCX_NEAR_COLLINEAR'):
-            # opt-in, outside the stated alphabet (DESIGN section 5): anchors that are NEARLY collinear,
-            # sin(angle) just above the library's 1e-10 fallback threshold.  Own signatures map/near_col_*.
-            self.bounds['geometry_classes'] = list(xm.GEO) + list(xm.NEAR)
-            for n in (3, 4):
-                u += [{'n': n, 'geo': [geo], 'mod': 1, 'r': 0} for geo in xm.NEAR]
+        # anchors that are NEARLY collinear, sin(angle) just above the library's 1e-10 fallback threshold
+        # (neither generic nor exact: the frame must still be orthonormal to 1e-9).  Own signatures map/near_col_*.
+        self.bounds['geometry_classes'] = list(xm.GEO) + list(xm.NEAR)
+        for n in range(3, nmax + 1):
+            mod = {3: 1, 4: 2, 5: 16}[n]
+            for geo in xm.NEAR:
+                u += [{'n': n, 'geo': [geo], 'mod': mod, 'r': r} for r in range(mod)]
         return u
 
     def cases(self, unit, tier, seed):
